@@ -71,6 +71,9 @@ type gen struct {
 
 	shadowAsDErr bool
 
+	// package-level `var x = errors.New(...)` / `fmt.Errorf(...)` of the parsed files: non-nil error values
+	errVars map[string]bool
+
 	ambiguous []ambiguity
 }
 
@@ -96,6 +99,23 @@ func (g *gen) parseFile(path string, into map[string]*ast.FuncDecl) {
 		fail(path, "parse error: %v", err)
 	}
 	for _, d := range f.Decls {
+		if gd, ok := d.(*ast.GenDecl); ok && gd.Tok == token.VAR {
+			for _, sp := range gd.Specs {
+				vs, ok := sp.(*ast.ValueSpec)
+				if !ok || len(vs.Names) != 1 || len(vs.Values) != 1 {
+					continue
+				}
+				if c, ok := vs.Values[0].(*ast.CallExpr); ok {
+					if n := calleeName(c); n == "errors.New" || n == "fmt.Errorf" || n == "New" || n == "Errorf" {
+						if g.errVars == nil {
+							g.errVars = map[string]bool{}
+						}
+						g.errVars[vs.Names[0].Name] = true
+					}
+				}
+			}
+			continue
+		}
 		fd, ok := d.(*ast.FuncDecl)
 		if !ok || fd.Recv != nil {
 			continue
@@ -382,6 +402,72 @@ func shadowedAt(fn *ast.FuncDecl, target ast.Node, name string) ast.Node {
 // top-level statement `x = true`, which is the last statement or is followed only by one
 // `return` / `return nil`. Any other assignment, := / var / range / parameter declaration,
 // ++/--, or &x of that name anywhere in fn is rejected.
+// flagGuardedFinish recognises
+//
+//	w := err
+//	if !flag && w == nil { w = errX }      // errX: package-level errors.New / fmt.Errorf value
+//	err = finishX(..., w, ...)             // w at the helper's error-parameter position
+//
+// where err is the (unshadowed) named result and flag obeys the flag discipline.
+func (g *gen) flagGuardedFinish(fn *ast.FuncDecl, d *ast.DeferStmt, stmts []ast.Stmt, isFinish func(*ast.CallExpr) bool) string {
+	name := fn.Name.Name
+	def, ok := stmts[0].(*ast.AssignStmt)
+	if !ok || def.Tok != token.DEFINE || len(def.Lhs) != 1 || len(def.Rhs) != 1 || !isIdent(def.Rhs[0], "err") {
+		return ""
+	}
+	wid, ok := def.Lhs[0].(*ast.Ident)
+	if !ok || wid.Name == "err" || wid.Name == "_" {
+		return ""
+	}
+	w := wid.Name
+	ifs, ok := stmts[1].(*ast.IfStmt)
+	if !ok || ifs.Init != nil || ifs.Else != nil || len(ifs.Body.List) != 1 {
+		return ""
+	}
+	cond, ok := unparen(ifs.Cond).(*ast.BinaryExpr)
+	if !ok || cond.Op != token.LAND {
+		return ""
+	}
+	flagName, ok := notIdent(cond.X)
+	if !ok {
+		return ""
+	}
+	eq, ok := unparen(cond.Y).(*ast.BinaryExpr)
+	if !ok || eq.Op != token.EQL || !isIdent(eq.X, w) || !isIdent(eq.Y, "nil") {
+		return ""
+	}
+	set, ok := ifs.Body.List[0].(*ast.AssignStmt)
+	if !ok || set.Tok != token.ASSIGN || len(set.Lhs) != 1 || len(set.Rhs) != 1 || !isIdent(set.Lhs[0], w) {
+		return ""
+	}
+	ev, ok := set.Rhs[0].(*ast.Ident)
+	if !ok || !g.errVars[ev.Name] {
+		fail(name, "deferred function at %s: `%s` is assigned `%s`, which is not a package-level errors.New / fmt.Errorf value of write.go / io.go",
+			g.at(d), w, exprString(g.fset, set.Rhs[0]))
+	}
+	as, ok := stmts[2].(*ast.AssignStmt)
+	if !ok || as.Tok != token.ASSIGN || len(as.Lhs) != 1 || len(as.Rhs) != 1 || !isIdent(as.Lhs[0], "err") {
+		return ""
+	}
+	c, ok := as.Rhs[0].(*ast.CallExpr)
+	if !ok || !isFinish(c) {
+		return ""
+	}
+	helper := g.pdf[identCall(c)]
+	if helper == nil {
+		fail(name, "%s is not declared in write.go / io.go", identCall(c))
+	}
+	eidx, _, nparams := g.errParamIndex(helper)
+	if len(c.Args) != nparams || !isIdent(c.Args[eidx], w) {
+		fail(name, "deferred function at %s: the error argument of %s is not `%s`", g.at(d), identCall(c), w)
+	}
+	if k := g.requireResultErr(fn, d); k != "DErr" {
+		fail(name, "deferred function at %s reads a shadowed err", g.at(d))
+	}
+	g.flagDiscipline(fn, flagName)
+	return "DFlag"
+}
+
 func (g *gen) flagDiscipline(fn *ast.FuncDecl, flagName string) {
 	name := fn.Name.Name
 	body := fn.Body.List
@@ -1072,6 +1158,13 @@ func (g *gen) classifyFinish(fn *ast.FuncDecl) string {
 				g.flagDiscipline(fn, flagName)
 				return "DFlag"
 			}
+		}
+	}
+	// defer func() { w := err; if !flag && w == nil { w = <non-nil error var> }; err = finishX(..., w) }()
+	// finishX sees a nil error only when the body returned nil AND the flag is set: DFlag.
+	if len(stmts) == 3 {
+		if k := g.flagGuardedFinish(fn, d, stmts, isFinish); k != "" {
+			return k
 		}
 	}
 	fail(name, "deferred function at %s has a shape that is not understood (neither `err = finishX(..., err)` nor `if !flag {cleanup; return}; ...finishX...`)", g.at(d))
